@@ -64,6 +64,13 @@ def run (max : Nat) (args : List String) : String :=
       match writeMsg ⟨h, pl⟩ with
       | .error _ => "err"
       | .ok ws => "ok " ++ " ".intercalate (ws.map toHex)
+  -- the bytes arrive on a real connection that its peer closes afterwards: data, then the end of the stream
+  | ["msg.conn", k, h] =>
+    match parseHex h with
+    | none => "bad-op"
+    | some bs =>
+      let out := readLoop max k.toNat! (if bs.isEmpty then [] else [.data bs false]) []
+      " ".intercalate (out.map (fun w => if w == "refused" then "err" else w))
   | "msg.wfail" :: _ :: _ :: _ :: _ :: _ :: _ :: _ :: _ :: _ :: _ :: _ :: _ :: rest =>
     -- the message before went to a writer that failed (its Write reports an error or too few bytes): an error for
     -- that one; this one is its own header and payload in one write, whatever happened before (`writeMsg` has no state)
